@@ -20,8 +20,10 @@ NB = 16
 ASSUMPTIONS = [
     "crash = process death (os._exit); no power-loss model: dvc-data never fsyncs",
     "SQLite (diskcache/sqltrie) and the tmpfs kernel implementation are trusted",
-    "thread-pool tasks are reordered, not interleaved with each other; caller "
-    "threads/processes interleave at I/O boundaries (seam points)",
+    "thread-pool tasks are reordered (PRNG completion order) in every engine and additionally run as "
+    "pre-empted threads in C03 (pool_interleave); caller threads/processes and pool threads interleave "
+    "at I/O boundaries only (seam points: every mutation, open, and - with fine_reads - before and "
+    "after every chunk read), never inside pure computation",
     "SimRemoteFS has atomic puts (S3/GCS/Azure semantics)",
     "checks run as root: permission bits do not restrict the simulated user "
     "except in the explicit uid variant of C16",
@@ -41,7 +43,9 @@ COMPONENTS = {
         "shutil.copyfile / shutil.rmtree (stepwise re-implementation over real syscalls)",
         "dvc_objects.fs.system.reflink (enotsup / nocow / cow variants)",
         "temp-name generator (deterministic counter)",
-        "thread pools (SimExecutor: inline, PRNG completion order)",
+        "thread pools (SimExecutor: inline with PRNG completion order, or baton-scheduled threads)",
+        "files opened for reading under a scheduler (_RFile proxy: chunk reads are pre-emption points)",
+        "diskcache.Index.clear (fault point idx_clear for the persistent remote index)",
         "remote object store (SimRemoteFS)",
         "file timestamps (SimClock via utime)",
         "scandir/listdir order (PRNG permutation)",
